@@ -6,6 +6,7 @@ import (
 	"fmt"
 	"math/big"
 	"strings"
+	"sync"
 )
 
 // poolItem is one boundary value. Expr is a jq expression that builds it inside
@@ -38,6 +39,141 @@ func gzipSampleExpr() string {
 	}
 	sb.WriteString("]")
 	return sb.String()
+}
+
+// ---------------------------------------------------------------------------
+// cborSample: the second decode sample of the pool. The gzip member has no decoded
+// string, float, boolean, null or big integer scalar, no synthetic (range-less) value
+// and no second root buffer; a CBOR document has all of them. It is written as a
+// jq byte list (numbers, strings and nested lists, what tobytes accepts), decoded with
+// the cbor function of the tree under test and bound to $c. Content:
+//   - unsigned 0, 255, 2^64-1; negative -1, -2^64 (big integer scalars);
+//   - byte strings: empty, 3 bytes, indefinite length (value in its own root buffer);
+//   - text strings on a grid of byte and rune lengths around the default
+//     string_truncate (50) and the levels the option objects give it:
+//     "é" x {26,40,49,50,51} (bytes > 50 > runes .. runes > 50), "a" x {49,50,51},
+//     "€" x 17 (51 bytes), U+1F600 x {13,50,51} (52, 200, 204 bytes), 30 "a" + 15 "é",
+//     "", "a", invalid UTF-8, control characters/escape sequence/quote/backslash,
+//     an indefinite length string (synthetic value without a range);
+//   - floats: half 1.0, half NaN, single +Inf, double -0.0, 1e308, 0.5, -Inf;
+//   - false, true, null, undefined; a bignum tag, a date tag; a map whose key is
+//     a long multi-byte string; empty array, empty map; a trailing byte (gap field).
+// fq's decoder leaves the break byte of an indefinite byte/text string to the enclosing
+// array (it becomes an element of its own); the element count accounts for that so
+// that the whole document is consumed.
+type cborDoc struct {
+	parts []string
+	n     int            // elements of the top level array as fq counts them
+	at    map[string]int // name -> element index
+}
+
+func (c *cborDoc) add(name string, consumed int, frag string) {
+	if name != "" {
+		c.at[name] = c.n
+	}
+	c.n += consumed
+	c.parts = append(c.parts, frag)
+}
+
+// cborText: header of a definite length text string of byteLen bytes followed by the
+// jq expression that yields the string.
+func cborText(expr string, byteLen int) string {
+	switch {
+	case byteLen <= 23:
+		return fmt.Sprintf("%d,%s", 0x60+byteLen, expr)
+	case byteLen <= 255:
+		return fmt.Sprintf("120,%d,%s", byteLen, expr)
+	}
+	return fmt.Sprintf("121,%d,%d,%s", byteLen>>8, byteLen&255, expr)
+}
+
+func rep(s string, n int) string { return fmt.Sprintf("(%q*%d)", s, n) }
+
+var (
+	cborOnce sync.Once
+	cborExpr string
+	cborAt   map[string]int
+)
+
+func cborSample() (string, map[string]int) {
+	cborOnce.Do(func() {
+		c := &cborDoc{at: map[string]int{}}
+		ff8 := "255,255,255,255,255,255,255,255"
+		c.add("uint0", 1, "0")
+		c.add("uint255", 1, "24,255")
+		c.add("uint64max", 1, "27,"+ff8)
+		c.add("neg1", 1, "32")
+		c.add("negbig", 1, "59,"+ff8)
+		c.add("bytes0", 1, "64")
+		c.add("bytes3", 1, "67,0,255,128")
+		c.add("bytesindef", 2, "95,65,97,66,98,99,255")
+		c.add("str0", 1, "96")
+		c.add("str1", 1, cborText(`"a"`, 1))
+		for _, n := range []int{26, 40, 49, 50, 51} {
+			c.add(fmt.Sprintf("e%d", n), 1, cborText(rep("é", n), 2*n))
+		}
+		for _, n := range []int{49, 50, 51} {
+			c.add(fmt.Sprintf("a%d", n), 1, cborText(rep("a", n), n))
+		}
+		c.add("euro17", 1, cborText(rep("€", 17), 51))
+		for _, n := range []int{13, 50, 51} {
+			c.add(fmt.Sprintf("emoji%d", n), 1, cborText(rep("\U0001F600", n), 4*n))
+		}
+		c.add("mixed", 1, cborText(`("a"*30+"é"*15)`, 60))
+		c.add("badutf8", 1, "98,255,254")
+		c.add("ctrl", 1, cborText(`"\u0000\n\t\"\\\u001b[31m\u007f"`, 11))
+		c.add("strindef", 2, "127,97,97,"+cborText(rep("é", 40), 80)+",255")
+		c.add("f16one", 1, "249,60,0")
+		c.add("f16nan", 1, "249,126,0")
+		c.add("f32inf", 1, "250,127,128,0,0")
+		c.add("f64negzero", 1, "251,128,0,0,0,0,0,0,0")
+		c.add("f64big", 1, "251,127,225,204,243,133,235,200,160") // 1e308
+		c.add("f64half", 1, "251,63,224,0,0,0,0,0,0")
+		c.add("f64neginf", 1, "251,255,240,0,0,0,0,0,0")
+		c.add("false", 1, "244")
+		c.add("true", 1, "245")
+		c.add("null", 1, "246")
+		c.add("undefined", 1, "247")
+		c.add("bignum", 1, "194,73,1,0,0,0,0,0,0,0,0")
+		c.add("date", 1, "192,"+cborText(`"2013-03-21T20:04:00Z"`, 20))
+		c.add("map", 1, "162,"+cborText(`"a"`, 1)+",1,"+cborText(rep("é", 40), 80)+",130,1,129,128")
+		c.add("array0", 1, "128")
+		c.add("map0", 1, "160")
+		head := fmt.Sprintf("152,%d", c.n)
+		if c.n > 255 {
+			panic("c13: cbor sample has too many elements")
+		}
+		// one trailing byte: a gap field at the root
+		cborExpr = "[" + head + "," + strings.Join(c.parts, ",") + ",0]"
+		cborAt = c.at
+	})
+	return cborExpr, cborAt
+}
+
+// cborVal: the expression of the value field of a named element of $c.
+func cborVal(name string) string {
+	_, at := cborSample()
+	i, ok := at[name]
+	if !ok {
+		panic("c13: no cbor sample element " + name)
+	}
+	return fmt.Sprintf("$c.elements[%d].value", i)
+}
+
+// wideBin: a binary with the given unit over the 26 letters (208 bits). Only the
+// registered Go function _tobits gives a binary a unit other than 1 and 8; the unit
+// is not limited to 64 bits (a unit is an arbitrary precision number when indexed).
+func wideBin(unit int, keepRange bool) string {
+	return fmt.Sprintf(`("abcdefghijklmnopqrstuvwxyz"|_tobits({unit:%d,keep_range:%v,pad_to_units:0}))`, unit, keepRange)
+}
+
+// coarseType: the pool types "x:y" refine the class x (used where one input per class
+// is selected).
+func coarseType(t string) string {
+	if i := strings.IndexByte(t, ':'); i >= 0 && !strings.HasPrefix(t, "opt:") {
+		return t[:i]
+	}
+	return t
 }
 
 // basePool: the boundary values per jq type of DESIGN §C13.
@@ -73,8 +209,32 @@ func basePool(thorough bool) []poolItem {
 		{"$d.members", "decode_array"},
 		{"$d.members[0].compression_method", "decode_scalar"},
 		{"$d.members[0].compressed", "decode_raw"},
+		// the CBOR sample: every scalar kind, strings on the byte/rune length grid
+		{"$c", "decode_struct:scalars"},
+		// a decoded multi-byte string scalar (80 bytes, 40 runes)
+		{cborVal("e40"), "decode_scalar:string"},
+		// a binary whose unit is wider than 64 bits (2 units of 72 bits + 64 bits)
+		{wideBin(72, true), "binary:wideunit"},
 	}
 	if thorough {
+		p = append(p,
+			poolItem{cborVal("e26"), "decode_scalar:string"},
+			poolItem{cborVal("e49"), "decode_scalar:string"},
+			poolItem{cborVal("emoji13"), "decode_scalar:string"},
+			poolItem{cborVal("ctrl"), "decode_scalar:string"},
+			poolItem{cborVal("strindef"), "decode_scalar:string_synthetic"},
+			poolItem{cborVal("negbig"), "decode_scalar:bigint"},
+			poolItem{cborVal("f16nan"), "decode_scalar:float"},
+			poolItem{cborVal("true"), "decode_scalar:boolean"},
+			poolItem{cborVal("null"), "decode_scalar:null"},
+			poolItem{cborVal("bytesindef"), "decode_raw:nested_root"},
+			poolItem{"$c.elements", "decode_array:scalars"},
+			poolItem{wideBin(13, true), "binary:unit13"},
+			poolItem{wideBin(64, true), "binary:unit64"},
+			poolItem{wideBin(65, false), "binary:wideunit"},
+			poolItem{wideBin(104, true), "binary:wideunit"},
+			poolItem{wideBin(1000, true), "binary:wideunit"},
+		)
 		p = append(p,
 			poolItem{"-0.5", "number"},
 			poolItem{"4294967296", "number"},           // 2^32
@@ -102,7 +262,8 @@ func basePool(thorough bool) []poolItem {
 
 // the statement that binds $d (decode sample) in front of the pool array
 func poolPrelude() string {
-	return "(" + gzipSampleExpr() + " | tobytes | gzip) as $d"
+	ce, _ := cborSample()
+	return "(" + gzipSampleExpr() + " | tobytes | gzip) as $d | (" + ce + " | tobytes | cbor) as $c"
 }
 
 type optVal struct {
